@@ -492,10 +492,18 @@ def _cli_rule(prog, chk, R):
     gets = [c for c in g.calls(lambda e: e['k'] == 'mcall' and SX.short(e['callee']) == 'getQasm')]
     chk.count('getQasm call sites in the CLI', len(gets), 2)
     # the variable(s) holding the listing: assigned from, or initialised with, a getQasm() result
+    def hkey(e):
+        """a local variable, or a field of a local record (`result.qasm` of a `ShotsResult result`)"""
+        e = SX.strip(e)
+        if SX.is_node(e) and e.get('k') == 'ref' and e.get('id'):
+            return e['id']
+        if SX.is_node(e) and e.get('k') == 'member' and not e.get('arrow') and SX.is_node(SX.strip(e.get('base'))) and SX.strip(e['base']).get('k') == 'ref' and SX.strip(e['base']).get('id'):
+            return (SX.strip(e['base'])['id'], e.get('name'))
+        return None
     holders = set()
     for n, l, r, op in g.writes():
-        if any(x is c.e for c in gets for x in SX.walk(r)) and SX.is_node(SX.strip(l)) and SX.strip(l).get('k') == 'ref':
-            holders.add(SX.strip(l)['id'])
+        if any(x is c.e for c in gets for x in SX.walk(r)) and hkey(l) is not None:
+            holders.add(hkey(l))
     for d in g.nodes:
         if d.kind == 'decl' and SX.is_node(d.e.get('init')) and any(x is c.e for c in gets for x in SX.walk(d.e['init'])):
             holders.add(d.e['id'])
@@ -503,17 +511,17 @@ def _cli_rule(prog, chk, R):
         raise AnalysisBroken('the listing is not held in variables assigned from getQasm() (%d)' % len(holders))
     # stream insertions of those variables
     outs = []
-    for c in g.calls(lambda e: e['k'] == 'opcall' and e['op'] == '<<' and len(e['args']) == 2 and SX.strip(e['args'][1]).get('id') in holders):
+    for c in g.calls(lambda e: e['k'] == 'opcall' and e['op'] == '<<' and len(e['args']) == 2 and hkey(e['args'][1]) in holders):
         sink = SX.strip(c.e['args'][0])
         kind = 'stdout' if SX.show(sink).endswith('cout') else ('file' if 'ofstream' in sink.get('t', '') else 'other')
-        outs.append((c, kind, SX.strip(c.e['args'][1])['id']))
+        outs.append((c, kind, hkey(c.e['args'][1])))
     files = [c for c, k, h in outs if k == 'file']
     stds = [c for c, k, h in outs if k == 'stdout']
     chk.ob('R05.6', f, f.ln, len(files) >= 2 and len(stds) >= 2, 'both CLI branches stream the listing variable to the .qasm file and (under --emit-qasm) to stdout: file=%d stdout=%d' % (len(files), len(stds)),
            key='same-variable')
     # no write to the variable between the file write and the stdout write (and it is the same variable)
     for i, (s, k, hid) in enumerate([o for o in outs if o[1] == 'stdout']):
-        wr = [n for n, l, r, op in g.writes() if SX.is_node(SX.strip(l)) and SX.strip(l).get('id') == hid]
+        wr = [n for n, l, r, op in g.writes() if hkey(l) == hid or (isinstance(hid, tuple) and hkey(l) == hid[0])]
         pre = [x for x, k2, h2 in outs if k2 == 'file' and h2 == hid and g.dominates(x, s)]
         ok = bool(pre) and not any(w.id in g.reachable([pre[-1]], avoid=[s]) and s.id in g.reachable([w]) for w in wr)
         chk.ob('R05.6', f, s.ln, ok, 'stdout receives the same value that was written to the file (same variable, no assignment in between)', key='no-rewrite#%d' % i)
